@@ -212,6 +212,9 @@ func genOne(r *hx.Rng, tier string) string {
 	n, t := sz.n, sz.t
 	seed := r.Intn(1000000)
 	ord := r.Intn(1000)
+	if r.Bool() {
+		ord = 1000 + r.Intn(1000000) // pseudo-random per-receiver interleavings
+	}
 	head := fmt.Sprintf("dkg %d %d %d %d ", n, t, seed, ord)
 	if r.Chance(1, 12) {
 		return head + "-"
@@ -225,7 +228,7 @@ func genOne(r *hx.Rng, tier string) string {
 	sort.Ints(corrupt)
 	dirs := map[[2]int]string{}
 	// recipe families
-	switch r.Intn(10) {
+	switch r.Intn(12) {
 	case 0: // crash from some phase on
 		for _, c := range corrupt {
 			p0 := hx.Pick(r, sendPhases)
@@ -252,6 +255,28 @@ func genOne(r *hx.Rng, tier string) string {
 		dirs[[2]int{a, hx.Pick(r, []int{7, 8, 10})}] = "s"
 		if len(corrupt) > 1 {
 			dirs[[2]int{corrupt[1], 10}] = randomVariant(r, n, t, 10)
+		}
+	case 5, 6: // a member drops out of (or never was in) QUAL-with-valid-points + key reveal games
+		a := corrupt[0]
+		switch r.Intn(6) {
+		case 0:
+			dirs[[2]int{a, 3}] = fmt.Sprintf("bad%d", r.Range(1, n))
+		case 1:
+			dirs[[2]int{a, 7}] = "s"
+		case 2:
+			dirs[[2]int{a, 8}] = hx.Pick(r, []string{"s", fmt.Sprintf("acc%d", r.Range(1, n))})
+		case 3:
+			dirs[[2]int{a, 10}] = "s"
+		case 4:
+			dirs[[2]int{a, 10}] = fmt.Sprintf("rev%d", r.Range(1, n))
+		default:
+			dirs[[2]int{a, 10}] = fmt.Sprintf("revw%d", r.Range(1, n))
+		}
+		for _, b := range corrupt[1:] {
+			tgt := hx.Pick(r, corrupt)
+			dirs[[2]int{b, 10}] = hx.Pick(r, []string{
+				fmt.Sprintf("rev%d", tgt), fmt.Sprintf("revw%d", tgt), fmt.Sprintf("rev%d+drop%d", tgt, corrupt[0]),
+				fmt.Sprintf("rev%d|rev%d", tgt, r.Range(1, n))})
 		}
 	default:
 		for _, c := range corrupt {
